@@ -22,10 +22,14 @@ def derivative_contract(env, factory, const=None, exempt=(), history=True, equal
         pre(env, hB)
     ins = hB.inputs(const=const)
     declared = _pairs(hB)
+    all_approx = bool(declared) and all(inf['method'] for inf in declared.values())
+    if all_approx:
+        env.note("%s: every partial is delegated to the framework (method=cs/fd); obligations are cs-safety, frame and "
+                 "independence of previous outputs only" % hB.fq)
 
     def run_fresh():
-        o = hB.compute(ins)
-        j = hB.partials(ins)
+        o = hB.compute(ins, havoc="O0" if all_approx else None)
+        j = hB.partials(ins) if not all_approx else hB.csx.new_jac()
         return o, j, list(hB.last_frame)
 
     generic = None
@@ -62,6 +66,9 @@ def derivative_contract(env, factory, const=None, exempt=(), history=True, equal
                     continue
                 T = hB.true_jac(ins, outs, of, wrt)
                 env.eq("C01", "D-sparsity d%s/d%s%s" % (of, wrt, tag if env.sym else ""), T, 0)
+        if all_approx:
+            for n in hB.out_names:
+                env.nodep("C03", "H-out %s does not depend on the previous outputs%s" % (n, tag if env.sym else ""), outs[n], "O0<")
         if frame:
             env.holds("C03", "H-frame inputs unchanged by compute%s" % (tag if env.sym else ""), not frame_writes,
                       "compute wrote to its inputs: %s" % (frame_writes[:4],))
@@ -76,7 +83,7 @@ def derivative_contract(env, factory, const=None, exempt=(), history=True, equal
             ok = (r.dtype.kind in 'iu' and c.dtype.kind in 'iu' and len(r) == len(c) and (len(r) == 0 or (
                 r.min() >= 0 and c.min() >= 0 and r.max() < shape[0] and c.max() < shape[1])))
             env.holds("C01", "D-index rows/cols in range d%s/d%s" % (of, wrt), ok)
-    if not history:
+    if not history or all_approx:
         return hB
     # ---- history: live instance A visits X' first
     hA = env.comp("live", factory, setup_model)
@@ -124,3 +131,95 @@ def _pin_mapping(env):
             from fractions import Fraction
             m[S.A.by_key[key]] = RF.const(Fraction(v).limit_denominator(10 ** 9))
     return m
+
+
+def implicit_contract(env, factory, setup_model=None, pre=None, requires=None):
+    """implicit component (R(inputs, outputs) = 0):
+    C01: linearize J[of, wrt] == d R_of / d wrt for inputs and outputs, undeclared pairs zero.
+    C03: second linearisation on live storage equals a fresh one.
+    C02/C05/C10: solve_nonlinear returns x with R(x) == 0 given the contract of the factorisation stub (op(A) x = b);
+    solve_linear in fwd mode solves (dR/du) d_outputs = d_residuals and in rev mode (dR/du)^T d_residuals = d_outputs
+    with the matrix factorised by the latest linearize/solve_nonlinear."""
+    from .. import spshim
+    h = env.comp("fresh", factory, setup_model)
+    if pre:
+        pre(env, h)
+    ins = h.inputs()
+    outs = {n: env.var("u." + n, h.shape[n]) for n in h.out_names}
+    res = h.residual(ins, outs)
+    jac = h.linearize(ins, outs)
+    declared = h.jinfo
+    for (of, wrt), inf in declared.items():
+        if inf['method']:
+            continue
+        env.eq("C01", "D-exact dR(%s)/d%s" % (of, wrt), jac.dense((of, wrt)), h.true_jac_res(ins, outs, res, of, wrt))
+    for of in h.out_names:
+        for wrt in h.in_names + h.out_names:
+            if (of, wrt) not in declared:
+                env.eq("C01", "D-sparsity dR(%s)/d%s" % (of, wrt), h.true_jac_res(ins, outs, res, of, wrt), 0)
+    # history
+    hA = env.comp("live", factory, setup_model)
+    if pre:
+        pre(env, hA)
+    insP = hA.inputs(tag="P.")
+    outsP = {n: env.var("P.u." + n, hA.shape[n]) for n in hA.out_names}
+    hA.residual(insP, outsP)
+    j = hA.linearize(insP, outsP)
+    resA = hA.residual(ins, outs)
+    j = hA.linearize(ins, outs, prev=j)
+    for n in h.out_names:
+        env.eq("C03", "H-out residual %s after visiting another point" % n, resA[n], res[n])
+    for k in declared:
+        if not declared[k]['method']:
+            env.eq("C03", "H-jac dR(%s)/d%s after linearising at another point" % k, j.dense(k), jac.dense(k))
+    # solve contracts (under the component's precondition on its inputs, if any)
+    if requires is not None:
+        ins = requires(env, h, ins)
+    if env.sym:
+        del spshim.SOLVES[:]
+        x = h.solve_nonlinear(ins)
+        nsolve = len(spshim.SOLVES)
+        env.holds("C02", "S-nl solve_nonlinear performs exactly one factorised solve", nsolve == 1, "%d solves" % nsolve)
+        r = h.residual(ins, x)
+        if nsolve == 1:
+            rec = spshim.SOLVES[0]
+            A = rec["A"].T if rec["trans"] else rec["A"]
+            lhs = spshim._mm(A, np.asarray(rec["x"], dtype=object).reshape(-1)) - np.asarray(rec["b"], dtype=object).reshape(-1)
+            for n in h.out_names:
+                env.eq("C02", "S-nl residual at the solve_nonlinear result is the solved system (R(x) == A x - b) [%s]" % n,
+                       np.asarray(r[n], dtype=object).reshape(-1), lhs)
+        # solve_linear after linearize at (ins, x): both modes
+        h.linearize(ins, x)
+        Juu = {(of, wrt): h.true_jac_res(ins, x, r, of, wrt) for of in h.out_names for wrt in h.out_names}
+        for mode in ("fwd", "rev"):
+            del spshim.SOLVES[:]
+            dv = {n: env.var("d_%s.%s" % (mode, n), h.shape[n]) for n in h.out_names}
+            zero = {n: env.const(np.zeros(h.shape[n])) for n in h.out_names}
+            if mode == "fwd":
+                do, dr = h.solve_linear(zero, dv, mode)
+                sol, rhs = do, dv
+            else:
+                do, dr = h.solve_linear(dv, zero, mode)
+                sol, rhs = dr, dv
+            env.holds("C02", "S-lin[%s] one factorised solve" % mode, len(spshim.SOLVES) == 1, "%d solves" % len(spshim.SOLVES))
+            if len(spshim.SOLVES) != 1 or len(h.out_names) != 1:
+                continue
+            rec = spshim.SOLVES[0]
+            n = h.out_names[0]
+            A = rec["A"].T if rec["trans"] else rec["A"]
+            J = Juu[n, n]
+            Jm = S.lift(np.asarray(J, dtype=object))
+            want = Jm if mode == "fwd" else Jm.T
+            env.eq("C02", "S-lin[%s] solved operator is %s of the current point" % (mode, "dR/du" if mode == "fwd" else "(dR/du)^T"),
+                   A, want)
+            env.eq("C02", "S-lin[%s] right-hand side is the given seed" % mode, np.asarray(rec["b"], dtype=object).reshape(-1),
+                   np.asarray(rhs[n], dtype=object).reshape(-1))
+            env.eq("C02", "S-lin[%s] result vector is the solve's unknown" % mode, np.asarray(sol[n], dtype=object).reshape(-1),
+                   np.asarray(rec["x"], dtype=object).reshape(-1))
+    else:
+        x = h.solve_nonlinear(ins)
+        r = h.residual(ins, x)
+        for n in h.out_names:
+            env.eq("C02", "S-nl residual at the solve_nonlinear result is the solved system (R(x) == A x - b) [%s]" % n,
+                   np.asarray(r[n]).reshape(-1), 0 * np.asarray(r[n]).reshape(-1))
+    return h
